@@ -29,7 +29,9 @@ pub fn check_c12() -> i32 {
                 sequence. Interned handles: see C15. distinct = values"
         .into();
     rep.rule.push_str(
-        "; plus, for every value, every construction variant of it (ring layouts, insertion orders, capacities) and \
+        "; also Box/Rc/Arc of [T], str and Path, Cow of [T]/str/Path, PhantomData, every NonZero width, every atomic \
+         integer, RangeFrom/RangeTo/RangeToInclusive/RangeFull, DashMap/DashSet, tuples to arity 12 (every position \
+         varied on its own), arrays of length 0-4, 32, 33; plus, for every value, every construction variant of it (ring layouts, insertion orders, capacities) and \
          generated derived shapes with #[serialize(skip)] on every subset of 1-3 fields. OPTIONAL FEATURES (second \
          build, binary vopt): SmallVec<[T;N]> (N = 0,1,2,4; inline, at the boundary, spilled, spilled-then-shrunk) and \
          BitVec<T,O> for T in {u8,u16,u32,usize} x O in {Lsb0,Msb0}: every bit string to length 10 and boundary \
@@ -231,7 +233,9 @@ pub fn check_c13() -> i32 {
         "128-bit SipHash collisions are not considered".into(),
     ];
     rep.rule.push_str(
-        "; every construction variant of every value hashes like it. OPTIONAL FEATURES (binary vopt): the SmallVec / \
+        "; also Box/Rc/Arc of [T], str and Path, PhantomData, every NonZero width, atomics (hash like the value held), \
+         open ranges, BinaryHeap, OsString/OsStr/CString/CStr/Path (owned = borrowed), Discriminant, tuples to arity 12, \
+         arrays of length 0-4, 32, 33, & and && of every value; every construction variant of every value hashes like it. OPTIONAL FEATURES (binary vopt): the SmallVec / \
          BitVec domains of C12, per-type digests compared across 3 processes",
     );
     let mut ctx = hash_ctx();
